@@ -125,6 +125,23 @@ def run(ctx):
     if len(set(skip)) != 1:
         miss.append("tombstone-test-mixed:" + "".join("1" if s else "0" for s in skip))
 
+    # do the owners' emitters hold a reference on the owner while its handlers run?  (fixes/C16_emitter_ref.patch)
+    def emitters_hold_ref(rel, prefix, must):
+        try:
+            t = strip(src(rel))
+        except OSError:
+            return False
+        ok = True
+        for fn in must:
+            body = _body(t, fn)
+            if not body or (prefix + "_ref(" not in body and prefix + "_unref(" not in body and "emit_change(" not in body):
+                ok = False
+        return ok
+    pen_ref = emitters_hold_ref("src/pen.c", "tickit_pen", ["changed", "thaw", "tickit_pen_set_colour_attr"]) and \
+        "tickit_pen_ref(" in (_body(strip(src("src/pen.c")), "emit_change") or _body(strip(src("src/pen.c")), "changed") or "")
+    term_ref = emitters_hold_ref("src/term.c", "tickit_term", ["tickit_term_set_size", "tickit_term_emit_key", "tickit_term_emit_mouse",
+                                                                  "tickit_term_input_push_bytes", "tickit_term_input_readable"])
+
     def b(x):
         return "true" if x else "false"
 
@@ -147,9 +164,13 @@ def run(ctx):
     body += f"def skipTomb : Bool := {b(all(skip))}\n"
     body += f"def wfOneshot : Bool := {b(wf_oneshot)}\n"
     body += f"def notifyLast : Bool := {b(notify_last)}\n"
+    body += "/-- the emitters of pen.c / term.c hold a reference on the owner while its handlers run -/\n"
+    body += f"def penEmitterRef : Bool := {b(pen_ref)}\n"
+    body += f"def termEmitterRef : Bool := {b(term_ref)}\n"
     body += "end Tickit.Gen.Bindings\n"
     write("Bindings", body)
     info["bindings"] = {"consts": consts, "tombstone": tomb, "kept_mask": kept, "unbind_test": unb_test, "destroy_test": des_test,
-                        "repairs_present": {"skipTomb": all(skip), "wfOneshot": wf_oneshot, "notifyLast": notify_last}}
+                        "repairs_present": {"skipTomb": all(skip), "wfOneshot": wf_oneshot, "notifyLast": notify_last,
+                                            "penEmitterRef": pen_ref, "termEmitterRef": term_ref}}
     for x in miss:
         info["untranslatable"].append("bindings:" + x)
